@@ -3,10 +3,11 @@
 # Applies a seeded change to /repo, runs the given checks, prints their verdicts, and undoes the change.
 set -u
 PATCH=$1; shift
-cd /repo || exit 2
+REPO=${VERIF_REPO:-/repo}
+cd $REPO || exit 2
 if [ -n "$(git status --porcelain --untracked-files=no)" ]; then echo "/repo is dirty; refusing"; exit 2; fi
 git apply "$PATCH" || { echo "patch does not apply"; exit 2; }
-trap 'git -C /repo checkout -- . >/dev/null 2>&1; git -C /repo clean -fdq src >/dev/null 2>&1' EXIT
+trap 'git -C $REPO checkout -- . >/dev/null 2>&1; git -C $REPO clean -fdq src >/dev/null 2>&1' EXIT
 cd /verif
 for id in "$@"; do
   out=$(./check "$id" --tier "${TIER:-quick}" 2>&1); rc=$?
